@@ -1345,7 +1345,9 @@ class FatDirectory(abc.MutableMapping):
             m = any_match(sfn, regexes)
             if m:
                 exclude(ranges, int(m.group(1)))
-            m = any_match(lfn, regexes)
+            # NOTE: look-ups compare the upper-cased long name, so this must
+            # too (re.IGNORECASE does not equate e.g. "ß" and "SS")
+            m = any_match(lfn.upper(), regexes)
             if m:
                 exclude(ranges, int(m.group(1)))
         for r in ranges:
